@@ -1186,8 +1186,8 @@ func oracleC17(r *OpRun, calledAt, returnedAt time.Duration) {
 	// the stop request was picked by a worker that slept through the request.
 	for _, qn := range r.o.queueNames() {
 		for _, st := range r.obs.QStatus[qn] {
-			if st.Status == "run first task" && st.Seq > s0 && st.At > r.obs.StopAt {
-				r.e.Viol("C17", "H5", "task-picked-after-waiting-through-stop", "queue %q picked a task at %v, the stop was requested at %v: the worker was waiting and did not notice the request", qn, st.At, r.obs.StopAt)
+			if st.Status == "run first task" && st.At > calledAt {
+				r.e.Viol("C17", "H5", "task-picked-after-waiting-through-stop", "queue %q picked a task at %v, shutdown was requested at %v (queues stopped at %v): nothing of the shutdown sequence takes simulated time before the queues are stopped, and a waiting worker notices the request", qn, st.At, calledAt, r.obs.StopAt)
 				break
 			}
 		}
